@@ -1,4 +1,7 @@
 //! epverif — property-based testing / fuzzing harness deciding the 17 etherparse properties.
 pub mod engine;
+pub mod gen;
+pub mod guard;
+pub mod obs;
 pub mod props;
 pub mod tape;
